@@ -85,6 +85,16 @@ def gen_cases(rng, tier):
                               "r": rng.uniform(0.3, 1.0), "Rl": rng.choice([50.0, 100.0, 1e3]), "bw": rng.uniform(0.7, 1.5),
                               "prop": prop, "D": rng.uniform(-0.0099, 0.0099) * T2, "L": rng.uniform(1, 50),
                               "instant": None})
+    # short records: 3..9 slots, just longer than the 16-sample filter padding (pulse kernels longer than the record, both shapes)
+    for _ in range(10 if tier == "quick" else 60):
+        nb = rng.choice([3, 4, 5, 6, 7, 8, 9])
+        sps = rng.choice([s for s in SPS if nb * s > 32] or [64])
+        R = rng.choice([1e9, 10e9])
+        cases.append({"kind": "chain", "bits": _bits(rng, "random", nb), "pattern": "short", "sps": sps, "R": R,
+                      "shape": rng.choice(["nrz", "gaussian", "gaussian"]), "Vpi": 3.5, "loss_dB": rng.choice([0.0, 3.0]),
+                      "ER_dB": rng.choice([13.0, 30.0]), "P": 10 ** rng.uniform(-4, -1.5), "npol": rng.choice([1, 2]),
+                      "pol": rng.choice(["x", "y"]), "r": 0.8, "Rl": 100.0, "bw": rng.choice([1.0, 1.2, 1.5]), "prop": "none",
+                      "D": 0.0, "L": 1.0, "instant": None})
     # every sampling instant for one NRZ case without filter influence is covered by the model tie (pre-filter waveform)
     for M in [2, 4, 8, 16]:
         for dec in ["soft", "hard"]:
@@ -102,7 +112,7 @@ def gen_cases(rng, tier):
     must = [(16, "nrz", 10.0, 2.0), (32, "nrz", 13.0, 2.0), (16, "nrz", 10.0, 1.5), (33, "gaussian", 10.0, 0.7)]
     for sps, shape, er, bw in must + ook_grid[: (6 if tier == "quick" else 60)]:
         kind = rng.choice(["random", "prbs"])
-        cases.append({"kind": "ook", "bits": _bits(rng, kind, rng.choice([64, 128, 254])), "pattern": kind, "sps": sps,
+        cases.append({"kind": "ook", "bits": _bits(rng, kind, rng.choice([33, 45, 64, 127, 128, 254])), "pattern": kind, "sps": sps,
                       "R": rng.choice([1e9, 10e9]), "shape": shape, "Vpi": 3.5, "loss_dB": 3.0, "ER_dB": er, "P": 10 ** rng.uniform(-4, -2),
                       "npol": rng.choice([1, 2]), "pol": "x", "r": 0.8, "Rl": 50.0, "bw": bw, "prop": "none", "seed": rng.getrandbits(31)})
     # several links in ONE process with the same PD bandwidth while the sampling rate goes down (a stale filter design or
@@ -281,10 +291,10 @@ def compare(case, res, reqs, replies):
         if len(w) != len(pre):
             out.append(f"pre-filter waveform length model {len(w)} impl {len(pre)}")
         else:
-            bad = [i for i, (a, b) in enumerate(zip(w, pre)) if abs(a - b) > 1e-9 * scale]
+            bad = [i for i, (a, b) in enumerate(zip(w, pre)) if not (abs(a - b) <= 1e-9 * scale)]
             if bad:
                 out.append(f"pre-filter waveform differs at sample {bad[0]}: model {w[bad[0]]!r} impl {pre[bad[0]]!r}")
-    if abs(v0 - res["v0"]) > 1e-9 * max(abs(v0), 1e-300) or abs(v1 - res["v1"]) > 1e-9 * max(abs(v1), 1e-300):
+    if not (abs(v0 - res["v0"]) <= 1e-9 * max(abs(v0), 1e-300)) or not (abs(v1 - res["v1"]) <= 1e-9 * max(abs(v1), 1e-300)):
         out.append(f"levels: model ({v0!r},{v1!r}) closed form ({res['v0']!r},{res['v1']!r})")
     return out
 
@@ -298,7 +308,7 @@ def oracle(case, res):
     if case["kind"] == "counter":
         n = len(case["tx"])
         want = len(case["flip"]) / n
-        if abs(res["ber"] - want) > 1e-15:
+        if not (abs(res["ber"] - want) <= 1e-15):
             v.append(("C03:counter", f"BER_analizer('counter') = {res['ber']} for {len(case['flip'])} flipped bits of {n} ({case['module']}, {case['form']})"))
         if res["ber0"] != 0:
             v.append(("C03:counter-zero", f"counter reports {res['ber0']} for identical sequences"))
